@@ -8,6 +8,7 @@ pub mod lru;
 pub mod query;
 pub mod sat;
 pub mod sdd;
+pub mod sddmid;
 pub mod semhash;
 pub mod table;
 
@@ -24,9 +25,10 @@ static SEMHASH: semhash::SemHashWorld = semhash::SemHashWorld;
 static FFI: ffi::FfiWorld = ffi::FfiWorld;
 static BDDBIG: bddbig::BddBigWorld = bddbig::BddBigWorld;
 static BDDMID: bddmid::BddMidWorld = bddmid::BddMidWorld;
+static SDDMID: sddmid::SddMidWorld = sddmid::SddMidWorld;
 
 pub fn all() -> Vec<&'static dyn World> {
-    vec![&TABLE, &LRU, &BDD, &SAT, &CNF, &SDD, &QUERY, &SEMHASH, &FFI, &BDDBIG, &BDDMID]
+    vec![&TABLE, &LRU, &BDD, &SAT, &CNF, &SDD, &QUERY, &SEMHASH, &FFI, &BDDBIG, &BDDMID, &SDDMID]
 }
 
 pub fn lookup(name: &str) -> Option<&'static dyn World> {
